@@ -38,6 +38,18 @@ def relevant(p, target, touched):
         return True
     return any(t.startswith(pre) for t in touched for pre in WHOLE.get(p, ()))
 
+def restore(wt):
+    """bring the worktree back to HEAD; git operations of parallel workers share /repo/.git and can fail on a lock: retry, then verify"""
+    import time
+    for _ in range(10):
+        a = subprocess.run(["git", "-C", wt, "checkout", "--", "."], capture_output=True)
+        b = subprocess.run(["git", "-C", wt, "clean", "-fdq"], capture_output=True)
+        st = subprocess.run(["git", "-C", wt, "status", "--porcelain"], capture_output=True, text=True)
+        if a.returncode == 0 and b.returncode == 0 and st.returncode == 0 and st.stdout.strip() == "":
+            return
+        time.sleep(2)
+    raise RuntimeError(f"cannot restore {wt}")
+
 q = queue.Queue()
 for s in seeds:
     q.put(s)
@@ -63,6 +75,7 @@ def worker(i):
         target = meta["property"]
         patch = open(f"{V}/seeded/{s}/patch.diff").read()
         touched = set(re.findall(r"^\+\+\+ b/(\S+)", patch, re.M))
+        restore(wt)
         r = subprocess.run(["git", "-C", wt, "apply", f"{V}/seeded/{s}/patch.diff"], capture_output=True, text=True)
         if r.returncode != 0:
             with lock:
@@ -70,7 +83,8 @@ def worker(i):
                 print(s, "patch does not apply:", r.stderr.strip()[:200], flush=True)
             continue
         row = {}
-        assert subprocess.run(["git", "-C", wt, "diff", "--quiet"]).returncode == 1, "patch not in the worktree"
+        changed = set(subprocess.run(["git", "-C", wt, "diff", "--name-only"], capture_output=True, text=True).stdout.split())
+        assert changed == touched, f"worktree differs from HEAD in {changed}, the patch touches {touched}"
         try:
             for p in claimed:
                 if not relevant(p, target, touched):
@@ -83,8 +97,7 @@ def worker(i):
             if subprocess.run(["git", "-C", wt, "diff", "--quiet"]).returncode != 1:
                 row = {p: dict(v, line="INVALID ROW: the worktree lost the patch during the run") for p, v in row.items()}
         finally:
-            subprocess.run(["git", "-C", wt, "checkout", "--", "."])
-            subprocess.run(["git", "-C", wt, "clean", "-fdq"])
+            restore(wt)
         with lock:
             results[s] = {"target": target, "checks": row}
             print(s, "target", target, " ".join(f"{p}:{'VIOL' if v['exit']==1 else ('pass' if not v['line'].startswith('untouched') else '-') if v['exit']==0 else 'INC'}" for p, v in row.items()), flush=True)
